@@ -111,6 +111,9 @@ type c16Cfg struct {
 	// ForkEmptyTail: forks replace blocks WITHOUT events, which the node has already been served,
 	// by blocks with events (nothing the node tracks changes its hash unless it tracks range ends)
 	ForkEmptyTail bool `json:"forks_replace_served_empty_blocks_by_blocks_with_events"`
+	// GrowDuringCalls: the chain also grows while the node is in the middle of its view calls
+	// (FEP mode reads contract state call by call), and forks drop those fresh blocks
+	GrowDuringCalls bool `json:"chain_grows_between_view_calls"`
 }
 
 type gerNode struct {
@@ -281,7 +284,15 @@ func c16Run(r *mon.Run, caseID string, g *rand.Rand, cfg c16Cfg) {
 			}
 			var ger common.Hash
 			copy(ger[:], msg.Data[4:])
-			live := liveGERs(c.Canonical(), 1<<62)
+			upTo := uint64(1 << 62)
+			if bn != nil && bn.Sign() >= 0 {
+				// eth_call at an explicit block: the state as of that block of the canonical chain
+				if bn.Uint64() > c.Latest() {
+					return nil, ethereum.NotFound
+				}
+				upTo = bn.Uint64()
+			}
+			live := liveGERs(c.Canonical(), upTo)
 			out := make([]byte, 32)
 			if live[ger] {
 				out[31] = 1
@@ -300,6 +311,11 @@ func c16Run(r *mon.Run, caseID string, g *rand.Rand, cfg c16Cfg) {
 			isPoll := false
 			if n, ok := a.(*big.Int); ok && m == "HeaderByNumber" && (n == nil || n.Sign() < 0) {
 				isPoll = true
+			}
+			if cfg.GrowDuringCalls && m == "CallContract" && g.Intn(8) == 0 {
+				pctOverride = 100
+				c.MineFn(1, gen)
+				pctOverride = -1
 			}
 			if isPoll && g.Intn(2) == 0 {
 				c.MineFn(1+g.Intn(cfg.MaxJump), gen)
@@ -330,7 +346,11 @@ func c16Run(r *mon.Run, caseID string, g *rand.Rand, cfg c16Cfg) {
 					emptyTail++
 				}
 			}
-			if forksLeft > 0 && ((!cfg.ForkEmptyTail && g.Intn(30) == 0) || (emptyTail > 0 && g.Intn(6) == 0)) {
+			forkNow := (!cfg.ForkEmptyTail && g.Intn(30) == 0) || (emptyTail > 0 && g.Intn(6) == 0)
+			if cfg.GrowDuringCalls && m == "CallContract" {
+				forkNow = g.Intn(12) == 0
+			}
+			if forksLeft > 0 && forkNow {
 				head, fin := c.Latest(), c.Finalized()
 				if head > fin+1 {
 					depth := 1 + g.Intn(min(5, int(head-fin)))
@@ -416,6 +436,29 @@ func c16Run(r *mon.Run, caseID string, g *rand.Rand, cfg c16Cfg) {
 		}
 		hmu.Lock()
 		growing = false
+		if cfg.FinalFork && nextIdx < nLeaves {
+			// make sure there is a fresh, non-finalized insertion that the node has indexed: one more
+			// block injects the next root, empty blocks follow until the node serves it
+			l1.mu.Lock()
+			l1.known = nLeaves
+			l1.mu.Unlock()
+			ger := l1.gers[nextIdx]
+			idx := uint32(nextIdx)
+			nextIdx++
+			liveList = append(liveList, ger)
+			ch.Mine([]fakes.LogSpec{fakes.PackLog(l2GERABI, l2GERAddr, "UpdateHashChainValue", ger, world.RandHash(g))})
+			hmu.Unlock()
+			for w := 0; w < 250; w++ {
+				if res, err := node.s.GetFirstGERAfterL1InfoTreeIndex(context.Background(), idx); err == nil && res.GlobalExitRoot == ger {
+					break
+				}
+				if w%10 == 9 {
+					ch.Mine(nil)
+				}
+				time.Sleep(2 * time.Millisecond)
+			}
+			hmu.Lock()
+		}
 		if cfg.FinalFork {
 			canon := ch.Canonical()
 			ins := l2GERABI.Events["UpdateHashChainValue"].ID
@@ -508,7 +551,7 @@ func c16Run(r *mon.Run, caseID string, g *rand.Rand, cfg c16Cfg) {
 			r.Violation(fmt.Sprintf("C16:%s:injected-root-index-wrong:%s", cfg.Mode, cls), caseID, diff, scen)
 			return
 		}
-		r.Eval(fmt.Sprintf("%s/jump=%d/removals=%v/restarts=%d/forks=%d/l1lag=%v/err=%v", cfg.Mode, min(cfg.MaxJump, 10), cfg.Removals, min(cfg.Restarts, 2), min(cfg.Forks, 2), cfg.L1Lag, cfg.ErrPct > 0)+fmt.Sprintf("/finalfork=%v/emptytail=%v", cfg.FinalFork, cfg.ForkEmptyTail))
+		r.Eval(fmt.Sprintf("%s/jump=%d/removals=%v/restarts=%d/forks=%d/l1lag=%v/err=%v", cfg.Mode, min(cfg.MaxJump, 10), cfg.Removals, min(cfg.Restarts, 2), min(cfg.Forks, 2), cfg.L1Lag, cfg.ErrPct > 0)+fmt.Sprintf("/finalfork=%v/emptytail=%v/growcalls=%v", cfg.FinalFork, cfg.ForkEmptyTail, cfg.GrowDuringCalls))
 		r.Add("ger_events_on_final_chain", len(liveGERs(ch.Canonical(), 1<<62)))
 		if len(trace) > 0 {
 			r.Sample(map[string]any{"config": cfg, "trace": trace, "head": ch.Latest()})
@@ -555,6 +598,12 @@ func TestC16(t *testing.T) {
 		}
 		cfg.L1Lag = g.Intn(4) == 0
 		cfg.FinalFork = g.Intn(3) == 0
+		if cfg.Mode == "FEP" && g.Intn(2) == 0 {
+			cfg.FinalFork = true // the state-polling mode must notice that a dropped injection came back
+		}
+		if i%5 == 3 && cfg.Mode == "FEP" {
+			cfg.GrowDuringCalls, cfg.Forks, cfg.FinalFork = true, 3+g.Intn(3), false
+		}
 		if i%5 == 4 && cfg.Mode == "PP" {
 			cfg.ForkEmptyTail, cfg.Forks, cfg.EventPct, cfg.FinalFork = true, 2+g.Intn(3), 10, false
 		}
